@@ -107,6 +107,19 @@ type OpResult struct {
 	Steps    int
 }
 
+// resetGlobals puts the process-wide state back to program start and, in
+// runs that use package-level extensions (one set of function objects shared
+// by every Expr of the process, as a server registering at init does),
+// registers the harness extensions there.
+func (r *runner) resetGlobals() {
+	jsonata.VerifResetGlobals()
+	if r.spec.GlobalExts {
+		if err := jsonata.RegisterExts(r.harnessExts()); err != nil {
+			panic(err)
+		}
+	}
+}
+
 func faultKey(f *Fault) string { return fmt.Sprintf("\x00F%s@%d", f.Kind, f.At) }
 
 type runner struct {
@@ -142,6 +155,12 @@ func buildDoc(d DocSpec) *docInst {
 			}
 		}
 	}
+	if d.Member != "" {
+		// the document is one member of the decoded value (a sub-structure
+		// registered as a variable on its own)
+		di.val = di.val.(map[string]interface{})[d.Member]
+		di.pristine = di.pristine.(map[string]interface{})[d.Member]
+	}
 	return di
 }
 
@@ -152,6 +171,7 @@ func tripleKey(text string, doc *docInst, vars map[string]*docInst, exts bool) s
 	if doc != nil {
 		b.WriteString(doc.spec.JSON)
 		b.WriteString(strings.Join(doc.spec.Alias, ">"))
+		b.WriteString("#" + doc.spec.Member)
 	}
 	b.WriteByte(0)
 	names := make([]string, 0, len(vars))
@@ -160,7 +180,7 @@ func tripleKey(text string, doc *docInst, vars map[string]*docInst, exts bool) s
 	}
 	sort.Strings(names)
 	for _, n := range names {
-		b.WriteString(n + "=" + vars[n].spec.JSON + ";")
+		b.WriteString(n + "=" + vars[n].spec.JSON + "#" + vars[n].spec.Member + ";")
 	}
 	if exts {
 		b.WriteString("\x00x")
@@ -268,7 +288,7 @@ func (r *runner) compileExpr(id, text, family string, vars map[string]string, ex
 			return nil, err
 		}
 	}
-	if exts {
+	if exts && !r.spec.GlobalExts {
 		if err := e.RegisterExts(r.harnessExts()); err != nil {
 			return nil, err
 		}
@@ -282,11 +302,12 @@ func (r *runner) compileExpr(id, text, family string, vars map[string]string, ex
 // expression and freshly decoded inputs, right after a reset of the
 // process-wide state: the stateless reference model.
 func (r *runner) reference(text string, doc *docInst, vars map[string]*docInst, exts bool, bytes bool) (string, int) {
-	jsonata.VerifResetGlobals()
+	r.resetGlobals()
 	e, err := jsonata.Compile(text)
 	if err != nil {
 		return "compile-error:" + oracle.ErrKind(err), 0
 	}
+	exts = exts && !r.spec.GlobalExts
 	if len(vars) > 0 {
 		m := map[string]interface{}{}
 		for n, d := range vars {
@@ -380,6 +401,12 @@ func Execute(spec *Spec, opt Options) *Result {
 		r.docs[d.ID] = buildDoc(d)
 		docRanges(r.docs[d.ID].val, &res.DocRanges, 0)
 	}
+	for _, d := range spec.Docs {
+		// a member document aliases the very object inside its parent
+		if p := r.docs[d.Parent]; d.Parent != "" && p != nil && d.Member != "" {
+			r.docs[d.ID].val = p.val.(map[string]interface{})[d.Member]
+		}
+	}
 	r.results = make([][]OpResult, len(spec.Tasks))
 	r.priv = make([]map[string]*exprInst, len(spec.Tasks))
 	for i, ops := range spec.Tasks {
@@ -445,7 +472,7 @@ func Execute(spec *Spec, opt Options) *Result {
 	}
 
 	// ---- set-up of the shared state (controller) ----
-	jsonata.VerifResetGlobals()
+	r.resetGlobals()
 	for _, es := range spec.Exprs {
 		ei, err := r.compileExpr(es.ID, es.Text, es.Family, es.Vars, es.Exts, -1)
 		if err != nil {
@@ -712,7 +739,7 @@ func (r *runner) postChecks(res *Result) {
 			res.Families[ei.family]++
 			key := ei.family + "|" + ei.text
 			switch ei.family {
-			case "transform", "outside", "arrn", "arrs", "obj":
+			case "transform", "outside", "arrn", "arrs", "obj", "varops":
 				if d := r.docs[op.Doc]; d != nil {
 					h := sha256.Sum256([]byte(ei.text + "\x00" + d.spec.JSON))
 					nontriv[hex.EncodeToString(h[:6])] = true
